@@ -21,6 +21,8 @@ mod rng;
 mod server;
 mod symbol_def;
 mod utils;
+#[cfg(feature = "verif_hooks")]
+mod verif_hooks;
 
 extern crate clap;
 extern crate parol_runtime;
@@ -93,6 +95,10 @@ where
 }
 
 fn main() -> Result<(), Box<dyn Error>> {
+    #[cfg(feature = "verif_hooks")]
+    if verif_hooks::requested() {
+        return verif_hooks::run();
+    }
     env_logger::init();
     debug!("env logger started");
 
